@@ -131,7 +131,7 @@ SimPathCall(h, op) ==
 SimCall(h, op) ==
   CASE op \in {"query", "get", "set", "delete_node"} -> SimPathCall(h, op)
     [] op \in {"add_segment", "add_loop", "delete_segment"} ->
-         \E sd \in Pick(SegsAdd \cup ChildData(h) \cup (IF op = "delete_segment" THEN NearData(h) ELSE {})) : Try(Call(h, op, NoPath, sd, "", 0))
+         \E sd \in Pick(SegsAdd \cup ChildData(h)) : Try(Call(h, op, NoPath, sd, "", 0))
     [] op = "add_node" -> LET R == Roots(f) \ {1} IN
                           IF R = {} THEN Fallback(h) ELSE \E a \in Pick(R) : Try(Call(h, op, NoPath, NoSeg, "", a))
     [] OTHER -> Try(Call(h, op, NoPath, NoSeg, "", 0))
